@@ -25,6 +25,23 @@ CHECKS = {
         "Rows <= 3-4, categories <= 2-3 (+ boundary extents 256/257/65536/65537); indexes built by the harness builder.",
         "7 (C02)",
     ),
+    "C13": (
+        "exploration", "enum",
+        "bounded-exhaustive enumeration of dimension lists with extra axes (unequal extents, two multi-axis dims, 3-axis indexes) x all data x all commons; block-vs-subcube oracle",
+        "For every listed configuration every data array and common value is enumerated; the result shape must be extra extents (dimension order, then axis order) + "
+        "category extents, every block must equal the library's own cube over the harness-sliced 1-D dimensions, and the two cube types must agree. Unequal extents "
+        "(2 vs 3, 1 vs 4) make any transposed or mis-ordered axis observable.",
+        "N <= 2-3 rows, 2 categories; 3-axis indexes built by the harness builder.",
+        "7 (C13)",
+    ),
+    "C18": (
+        "exploration", "enum",
+        "bounded-exhaustive enumeration of array cubes x fact/weight/missing patterns x probabilities; textbook per-cell statistics in plain Python as oracle",
+        "Every data vector (D<=2, N<=4-5) is crossed with missing patterns, weight patterns, policies and both report formats for stddev, quantile (7 probabilities; weighted: "
+        "three relations), min/max over float/int/datetime facts, covariance and correlation; each cell is compared with the statistic computed from its own rows.",
+        "Zero weights excluded for stddev/quantile/covariance; undefined matrix entries (<2 rows, zero variance) not compared.",
+        "7 (C18)",
+    ),
     "C14": (
         "exploration", "enum",
         "bounded-exhaustive enumeration of 1..4 one-axis dimensions x all data x all commons; multiset oracle from the set comprehension in the statement",
